@@ -1090,8 +1090,16 @@ func convSig(inc *Inc, ex *Expect, root *simrt.Inode) string {
 			if !strings.HasPrefix(abs, "/") {
 				abs = cleanPath("/work/" + name)
 			}
-			if n := simrt.Find(root, abs); n != nil && n.Kind == simrt.KFile && len(n.Data) == 0 && strings.HasSuffix(abs, ".audit.json") {
-				return "torn-audit-rewrite"
+			// (the finding is the RE-write by a tagging component: the file whose record
+			// is torn exists at its final path in the crash state and passes a tagger
+			// in this workflow. An empty audit file next to a file that is not there
+			// yet, or of a file no tagger touches, is harmless on the unchanged tree -
+			// a re-run that stops on it is something else.)
+			data := strings.TrimSuffix(abs, ".audit.json")
+			if n := simrt.Find(root, abs); n != nil && n.Kind == simrt.KFile && len(n.Data) == 0 && strings.HasSuffix(abs, ".audit.json") && ex.Retagged[data] {
+				if d := simrt.Find(root, data); d != nil && d.Kind == simrt.KFile {
+					return "torn-audit-rewrite"
+				}
 			}
 		}
 	}
